@@ -527,6 +527,12 @@ end not_proved
     correction `−2/5·alphas[·][3]` is the same expression in both) -/
 theorem q2d_sum_branches_symmetric : Generated.C07.q2dSumBranchesSymmetric = true := by decide
 
+/-- read off the source of every `prysm/polynomials/*.py`: no `id(…)`, no `is` between two non-constant expressions, no `global`, and no
+    function stores anything that depends on its parameters into state that outlives the call (module-level container, function attribute,
+    mutable default) except as a table entry whose key mentions, by value, every parameter the entry depends on — so the value of a
+    polynomial cannot depend on WHICH array object carried the coordinates or on what that object held during an earlier call -/
+theorem polynomials_keep_no_state_between_calls : Generated.C07.polynomialsKeepNoStateBetweenCalls = true := by decide
+
 /-! ## non-vacuity -/
 example : Generated.C07.weight (fun u v : ℝ => u ^ v) 0 4 (1/2) = (1 - 1/2) ^ (0:ℝ) * (1 + 1/2) ^ (4:ℝ) := by
   rw [C07.weight_def]
